@@ -4,7 +4,7 @@
    worker 1 = the data goroutine (one token per element, then forwards it to out 0) - Pipe/Stages.v,
    mirroring pipe.Throttling.  [tokens s] = tokens pushed so far.
 
-   PARTIAL only with respect to the upper half of the exact schedule (last item).  Proved, for every ops,
+   Nothing of the property is left partial.  Proved, for every ops,
    interval, capacities, arrival pattern, consumer pace and ANY way the virtual clock advances:
      - content: exactly the input elements, in order, once each; closes when the input closes; no panic;
        no deadlock (only the pacer's timer can be what everybody waits for);
@@ -28,13 +28,17 @@
      - C13_tokens_window: the pacer pushes at most ops tokens between two such points (cancelled or not);
      - C13_delivery_not_early: element number i (0-based) is not available on the output before
        floor(i/ops)*interval - the lower half of the exact schedule, for any clock policy.
-   NOT proved as a theorem (checked by the correspondence oracle on every explored steady virtual-time schedule):
-     - the upper half of the exact schedule: under maximal progress with input always available and the consumer
-       always ready, element i is delivered no later than one interval after floor(i/ops)*interval
-       (a liveness statement about one particular scheduling policy, not about all runs). *)
+   Under MAXIMAL PROGRESS (Pipe/PoolMaxProgress.v: the clock moves only when no goroutine can step, nothing is
+   receivable on out 0 - "the consumer is always ready" -, the data goroutine is not starved - "input is always
+   available" - and never past the pacer's pending deadline; the environment receives from out 0 only and never cancels):
+     - C13_throttle_delivery_count / C13_throttle_element_time: the schedule is EXACT - deliveries =
+       min(handed over, ops * (now / interval + 1)); element i is delivered at the instant floor(i/ops)*interval,
+       so "no later than one interval after that" holds with a whole interval to spare (see the comments at the
+       theorems below). *)
 From Coq Require Import List ZArith NArith.
 From Golem Require Import Base.Lists Pipe.Pool Pipe.Stages Pipe.PoolSteps Pipe.PoolLive Pipe.PoolSeq
-     Pipe.PoolThrottle Pipe.PoolThrottleRate Pipe.PoolThrottleDeliver Pipe.PoolThrottleWindow.
+     Pipe.PoolThrottle Pipe.PoolThrottleRate Pipe.PoolThrottleDeliver Pipe.PoolThrottleWindow
+     Pipe.PoolMaxProgress Pipe.PoolThrottlePace.
 Import ListNotations.
 
 Theorem C13_throttle_prefix : forall (ops : nat) (interval : N) (icaps ocaps : list nat) (s : state),
@@ -152,3 +156,111 @@ Theorem C13_delivery_not_early : forall (ops : nat) (interval : N) (icaps ocaps 
   (N.of_nat i / N.of_nat ops * interval <= now s)%N.
 Proof. exact delivery_not_early. Qed.
 Print Assumptions C13_delivery_not_early.
+
+(* ---------- the pace clause under maximal progress ---------- *)
+(* pace clause - "when input is always available and the consumer always ready, element i (counting
+   from 0) is delivered no earlier than floor(i/ops)*interval and no later than one interval after that".
+   Nothing but the property theorems; the upper half, under MAXIMAL PROGRESS (Pipe/PoolMaxProgress.v).
+   (The lower half - deliveries by time t <= ops * (t / interval + 1) for ANY clock policy - is
+   Properties/C13.v: C13_deliveries_rate.)
+
+   [throttle_stage ops interval icaps ocaps]: worker 0 = the pacer, worker 1 = the data goroutine, out 0 = the
+   output, out 1 = the token channel (internal).  [mp_reachable c ext0 fed s]: s is reached by an execution of
+   [step] in which
+     - the environment receives from out 0 only ([ext0]) and never cancels;
+     - every clock event [EAdvance t] happens in a [settled] state - no step of either goroutine enabled and
+       nothing receivable on out 0: "the consumer is always ready" - that is [fed] - the data goroutine is not
+       standing at `range in` with nothing to take: "input is always available" (implied by: the input buffer
+       is full or the input is closed, C13_saturated_is_fed) - and t does not exceed the pacer's pending deadline.
+   Hypothesis on the capacities: the token channel can hold a token when ops >= 1 (pipe.Throttling makes it
+   with capacity ops); the capacities of the input and of the output are arbitrary.
+
+   Result: the schedule is EXACT - deliveries = min(handed over, ops * (now / interval + 1)); element i is
+   delivered at the instant floor(i/ops) * interval, so "no later than one interval after" holds with a whole
+   interval to spare. *)
+
+
+(* whenever the clock may move: either the data goroutine has returned (input closed, everything handed over
+   was delivered, output closed), or it holds the next element and ALL ops * (now / interval + 1) tokens of
+   the batches so far have been turned into deliveries *)
+Theorem C13_throttle_keeps_pace : forall (ops : nat) (interval : N) (icaps ocaps : list nat),
+  (1 <= ops -> 1 <= nth_cap ocaps 1)%nat ->
+  forall s : state,
+  mp_reachable (throttle_stage ops interval icaps ocaps) ext0 fed s ->
+  settled (throttle_stage ops interval icaps ocaps) ext0 s -> fed s -> (0 < interval)%N ->
+  (wc (ws s 1) = WDone /\ cclosed (ins s 0) = true /\ cclosed (outs s 0) = true /\ delivered s 0 = sent s 0 /\
+   (N.of_nat (length (sent s 0)) <= N.of_nat ops * (now s / interval + 1))%N)
+  \/
+  (exists a : Z, wc (ws s 1) = WRun false [ATok 1; ASend 0 a] /\
+             N.of_nat (length (delivered s 0)) = (N.of_nat ops * (now s / interval + 1))%N /\
+             prefix (delivered s 0 ++ [a]) (sent s 0)).
+Proof. exact throttle_keeps_pace. Qed.
+Print Assumptions C13_throttle_keeps_pace.
+
+Theorem C13_throttle_delivery_count : forall (ops : nat) (interval : N) (icaps ocaps : list nat),
+  (1 <= ops -> 1 <= nth_cap ocaps 1)%nat ->
+  forall s : state,
+  mp_reachable (throttle_stage ops interval icaps ocaps) ext0 fed s ->
+  settled (throttle_stage ops interval icaps ocaps) ext0 s -> fed s -> (0 < interval)%N ->
+  N.of_nat (length (delivered s 0)) = N.min (N.of_nat (length (sent s 0))) (N.of_nat ops * (now s / interval + 1)).
+Proof. exact throttle_delivery_count. Qed.
+Print Assumptions C13_throttle_delivery_count.
+
+(* element i has been delivered <=> it was handed over and the instant floor(i/ops)*interval has been reached *)
+Theorem C13_throttle_element_time : forall (ops : nat) (interval : N) (icaps ocaps : list nat),
+  (1 <= ops -> 1 <= nth_cap ocaps 1)%nat ->
+  forall (s : state) (i : nat),
+  mp_reachable (throttle_stage ops interval icaps ocaps) ext0 fed s ->
+  settled (throttle_stage ops interval icaps ocaps) ext0 s -> fed s -> (0 < interval)%N -> (1 <= ops)%nat ->
+  ((i < length (delivered s 0))%nat <->
+   (i < length (sent s 0))%nat /\ (N.of_nat (i / ops) * interval <= now s)%N).
+Proof. exact throttle_element_time. Qed.
+Print Assumptions C13_throttle_element_time.
+
+(* the invariants behind it, for ALL maximal-progress states: tokens taken out of the token channel = elements
+   made available + the one in the data goroutine's hand (with C13_deliveries_le_tokens: equality), and - as long
+   as the data goroutine has not returned - the pacer's clock is exact: batch b starts at (b-1)*interval *)
+Theorem C13_tokens_all_spent : forall (ops : nat) (interval : N) (icaps ocaps : list nat) (s : state),
+  mp_reachable (throttle_stage ops interval icaps ocaps) ext0 fed s -> G s.
+Proof. exact G_mp_reachable. Qed.
+Print Assumptions C13_tokens_all_spent.
+
+Theorem C13_pacer_clock_exact : forall (ops : nat) (interval : N) (icaps ocaps : list nat),
+  (1 <= ops -> 1 <= nth_cap ocaps 1)%nat ->
+  forall s : state,
+  mp_reachable (throttle_stage ops interval icaps ocaps) ext0 fed s -> X interval s.
+Proof. exact X_mp_reachable. Qed.
+Print Assumptions C13_pacer_clock_exact.
+
+(* "input buffer full or input closed" is a sufficient, observable reading of "input always available" *)
+Theorem C13_saturated_is_fed : forall (ops : nat) (interval : N) (icaps ocaps : list nat) (s : state),
+  cclosed (ins s 0) = true \/ in_room (throttle_stage ops interval icaps ocaps) s 0 = false -> fed s.
+Proof. exact saturated_fed. Qed.
+Print Assumptions C13_saturated_is_fed.
+
+(* non-vacuity: 2 tokens per 5 ticks, five elements offered: 10, 11 at time 0; 12, 13 at time 5; 14 waits;
+   and the run in which the input is closed after 13 *)
+Theorem C13_throttle_keeps_pace_nonvacuous :
+  exists s, mp_reachable (throttle_stage 2 5 [1%nat] [1%nat; 2%nat]) ext0 fed s /\
+            settled (throttle_stage 2 5 [1%nat] [1%nat; 2%nat]) ext0 s /\ fed s /\
+            now s = 5%N /\ delivered s 0 = [10; 11; 12; 13]%Z /\ wc (ws s 1) = WRun false [ATok 1; ASend 0 14%Z].
+Proof. exact throttle_mp_example. Qed.
+Print Assumptions C13_throttle_keeps_pace_nonvacuous.
+
+Theorem C13_throttle_keeps_pace_nonvacuous_done :
+  exists s, mp_reachable (throttle_stage 2 5 [1%nat] [1%nat; 2%nat]) ext0 fed s /\
+            settled (throttle_stage 2 5 [1%nat] [1%nat; 2%nat]) ext0 s /\ fed s /\
+            now s = 100%N /\ delivered s 0 = [10; 11; 12; 13]%Z /\ wc (ws s 1) = WDone.
+Proof. exact throttle_mp_example_done. Qed.
+Print Assumptions C13_throttle_keeps_pace_nonvacuous_done.
+
+(* the policy bites: no clock move while the data goroutine starves, while an element waits in the output
+   buffer, or past the pacer's deadline *)
+Theorem C13_mp_policy_bites :
+  thr_mp_run 2 5 [1%nat] [1%nat; 2%nat] (thr_ex_batch ++ thr_ex_el 10 ++ [EAdvance 5]) = None /\
+  thr_mp_run 2 5 [1%nat] [1%nat; 2%nat]
+    (thr_ex_batch ++ [ESent 0 10%Z; EW 1 false; EW 1 false; EW 1 false; EAdvance 5]) = None /\
+  thr_mp_run 2 5 [1%nat] [1%nat; 2%nat]
+    (thr_ex_batch ++ thr_ex_el 10 ++ thr_ex_el 11 ++ [ESent 0 12%Z; EW 1 false; EAdvance 6]) = None.
+Proof. exact (conj throttle_mp_starved (conj throttle_mp_no_lag throttle_mp_no_jump)). Qed.
+Print Assumptions C13_mp_policy_bites.
